@@ -1,9 +1,10 @@
 """C05 - cut commits the clause and nothing else."""
-from lib import semcheck, progs
+from lib import semcheck, progs, progs_shapes
 from lib.semcheck import impl, model_expr, compare, oracle, describe, shrink, IMPORTS
 
 ID = 'C05'
-THEOREMS = ['C05_cut_code_correct', 'C05_compiled_program_computes_reference', 'C05_cut_prunes_later_clauses', 'C05_no_cut_continues', 'C05_cut_local_to_predicate', 'C05_query_result_after_cut', 'C05_cut_spec_readable', 'C05_cut_first']
+THEOREMS = ['C05_cut_code_correct', 'C05_compiled_program_computes_reference', 'C05_cut_prunes_later_clauses', 'C05_no_cut_continues', 'C05_cut_local_to_predicate', 'C05_query_result_after_cut', 'C05_cut_spec_readable', 'C05_cut_first',
+            'C05_cut_in_disjunction_branch', 'C05_cut_in_then_branch', 'C05_cut_in_else_branch', 'C05_cut_survives_continuation', 'C05_cut_continuation_backtracks']
 CASE_TIMEOUT = 60
 MODEL_NEEDS_IMPL = True
 COQ_CHUNK = 20
@@ -11,8 +12,15 @@ RULE = ('random programs as for C01 whose bodies also contain ! at the top level
         '(never inside a condition or under \\+), with predicates of 2-4 clauses, callers that have their own alternatives, leaf solution counts '
         '0/1/many, if-then-else and negation around. Compared as C01 (implementation / compiled-code model / SLD reference with cut). '
         'Non-trivial: the program contains a cut, some query has an answer, and the predicate with the cut has a later clause or a goal with '
-        'several solutions to the left of the cut.')
+        'several solutions to the left of the cut. Plus program shapes of lib/progs_shapes.py: clause bodies of 6-18 top-level goals (up to '
+        'the nesting limit of the emitted Python) with cuts, cuts nested in ;/-> branches, if-then-else and negation at every position '
+        'including the last ones, later clauses and caller alternatives; directly recursive predicates over lists / s(N) / acyclic graphs '
+        'with random cut placement (base clause ending in !, cut before the recursive call), tail and non-tail recursion and alternatives at '
+        'every level of the recursion.')
 TRUSTED_BASE = []
+
+N_LONG = {'quick': 50, 'thorough': 400}
+N_REC = {'quick': 50, 'thorough': 400}
 
 def gen(rng, tier):
     n = 220 if tier == 'quick' else 5000
@@ -30,6 +38,11 @@ def gen(rng, tier):
                 body = ['and', ['cut'], body]
             cl.append([name, args, body])
         cases.append({'clauses': cl, 'queries': p['queries']})
+    # program shapes that the layered random programs never reach (lib/progs_shapes.py)
+    for _ in range(N_LONG[tier]):
+        cases.append(progs_shapes.gen_long_body_program(rng))
+    for _ in range(N_REC[tier]):
+        cases.append(progs_shapes.gen_recursive_program(rng))
     return cases
 
 def builtin_corpus():
@@ -49,10 +62,28 @@ def builtin_corpus():
           ['s', [V('X')], ['and', ['cut'], ['true']]], ['t', [V('X')], ['call', 'q', [V('X')]]]] + q3, [['p', [V('Q0')]], ['r', [V('Q0')]], ['t', [V('Q0')]], ['q', [V('Q0')]]])
     return L
 
+def oracle(case, io):
+    """intrinsic, on the implementation alone: no query variable stays bound (semcheck), and the caller's own alternatives are
+    untouched - the generated callers around a predicate with cuts answer exactly their callee's answers inside their own
+    generator's solutions, followed by their own last clause (progs_shapes.check_relations)"""
+    return semcheck.oracle(case, io) or progs_shapes.check_relations(case, io)
+
 def nontrivial(case, io):
     if not isinstance(io, dict) or 'queries' not in io or not any(q['count'] >= 1 for q in io['queries']):
         return False
     return any('cut' in progs.constructs(b) for _, _, b in case['clauses'])
 
 def distribution(cases, obs):
-    return semcheck.stats(cases, obs)
+    d = semcheck.stats(cases, obs)
+    shapes = {}
+    longest = {}
+    for c in cases:
+        k = c.get('shape', 'layered').split(':')[0]
+        shapes[k] = shapes.get(k, 0) + 1
+        for _, _, b in c['clauses']:
+            n = progs_shapes.top_level_goals(b)
+            key = '1-5' if n <= 5 else '6-12' if n <= 12 else '13-15' if n <= 15 else '16+'
+            longest[key] = longest.get(key, 0) + 1
+    d['program_shapes'] = shapes
+    d['top_level_goals_per_clause_body'] = longest
+    return d
